@@ -26,6 +26,7 @@ import (
 	"github.com/lestrrat-go/jwx/v2/jws"
 	v2 "github.com/nuts-foundation/nuts-node/vcr/pe/schema/v2"
 	"strings"
+	"time"
 
 	"github.com/PaesslerAG/jsonpath"
 	"github.com/dlclark/regexp2"
@@ -539,6 +540,8 @@ func matchFilter(filter Filter, value interface{}) (bool, interface{}, error) {
 		if err != nil {
 			return false, nil, err
 		}
+		// patterns come from (remote) presentation definitions: bound catastrophic backtracking
+		re.MatchTimeout = time.Second
 		match, err := re.FindStringMatch(value.(string))
 		if err != nil {
 			return false, nil, err
